@@ -19,11 +19,7 @@ META = {
 }
 
 
-def tokens(line):
-    """library tokens of a non-comment line (comment part stripped)"""
-    if C.is_comment(line):
-        return []
-    return line.split(b'#', 1)[0].split()
+tokens = C.tokens
 
 
 def L(content):
@@ -43,22 +39,21 @@ def judge_disable(old, rc, new, LIB):
     own_idx = [i for i, l in enumerate(ol) if C.own_entry_line(l, LIB)]
     if rc >= 98 and rc != 127:
         bad.append('crash_rc%d' % rc)
+    mentions = sum(max(1, l.split(b'#', 1)[0].count(C.NAME)) for l in act)     # active lines that mention a libsnoopy.so, several mentions on one line counted each
     if rc != 0:
         if not same:
             bad.append('refused_but_modified')
-        if len(act) < 2:
+        if mentions < 2:
             bad.append('refused_without_duplicate_active_mentions')
         return bad
-    later = [i for i, l in enumerate(ol) if not C.is_comment(l) and LIB in tokens(l)]
     if not own_idx:
-        # entry absent (as the first token of a line): untouched - or, if LIB is a later token of some line, that token alone may go
-        if same:
-            return bad
-        if not later:
-            return ['modified_although_entry_absent']
+        # the entry is not an active token of any line: untouched
+        return bad if same else ['modified_although_entry_absent']
     nl = L(new)
     ok = False
-    for i in (own_idx or later):
+    if any(LIB in tokens(l) for l in nl):
+        bad.append('own_entry_still_active_after_reported_success')
+    for i in own_idx:
         rest = list(tokens(ol[i]))
         if LIB in rest:
             rest.remove(LIB)
@@ -169,6 +164,14 @@ def run(ck):
                     ck.violation('C19:after_enable:%s:file=%r' % ('+'.join(bad), show), {'file': f.decode('latin-1'), 'after_enable': n1.decode('latin-1'), 'after_disable': None if n2 is None else n2.decode('latin-1')})
         if len(samples) < 5 and evals % 4001 == 2:
             samples.append({'file': show.decode('latin-1'), 'seq': seq, 'rcs': [s[0] for s in steps], 'changed': steps[0][1] != f})
+    # files whose size does not fit an int (sparse; the last line is another library's entry)
+    for label, hbad in C.huge_file_cases(ck, cli, LIB):
+        if not label.startswith('disable'):
+            continue
+        evals += 1
+        outcomes.add(('huge', label, tuple(hbad)))
+        if hbad:
+            ck.violation('C19:%s:%s' % ('+'.join(hbad), label), {'case': label, 'failed': hbad})
     ck.coverage(states=len(outcomes), transitions=evals, traces_validated_against_impl=evals, evaluations=evals, distinct_nontrivial=len(outcomes), files=len(fs),
                 rule='all files up to the line bound over the 22-line alphabet x {final newline, none} + absent + empty, each: disable;disable and enable;disable; distinct = (sequence, exit codes, changed?, #active mentions, failure set)',
                 samples=samples or [{'note': 'none'}])
